@@ -277,10 +277,12 @@ func (w *walker) emit(ph Phase, n ast.Node, key interface{}, chain []ast.Node, p
 	if w.o != nil && w.o.Visible != nil && !w.o.Visible(n.GetKind(), ph) {
 		return Continue
 	}
+	// chain, path and encl are never modified after they were built (every
+	// level allocates its own), so events may share them
 	e := Event{Phase: ph, Node: n, Kind: n.GetKind(), Key: key, Parent: chain[len(chain)-1],
-		Ancestors: append([]ast.Node{}, chain[:len(chain)-1]...), Enclosing: append([]ast.Node{}, encl...)}
+		Ancestors: chain[: len(chain)-1 : len(chain)-1], Enclosing: encl[:len(encl):len(encl)]}
 	if ph == Enter {
-		e.Path = append([]interface{}{}, path...)
+		e.Path = path[:len(path):len(path)]
 	}
 	w.out = append(w.out, e)
 	if w.policy == nil {
@@ -300,14 +302,14 @@ func (w *walker) visit(n ast.Node, key interface{}, chain []ast.Node, path []int
 	inner := append(append([]ast.Node{}, chain...), n)
 	enclIn := append(append([]ast.Node{}, encl...), n)
 	for _, c := range Children(n, w.o) {
-		p := append(append([]interface{}{}, path...), c.Field)
-		if !c.IsList {
-			if c.Node != nil && w.visit(c.Node, c.Field, inner, p, enclIn) {
-				return true
-			}
+		if (!c.IsList && c.Node == nil) || (c.IsList && len(c.List) == 0) {
 			continue
 		}
-		if len(c.List) == 0 {
+		p := append(append([]interface{}{}, path...), c.Field)
+		if !c.IsList {
+			if w.visit(c.Node, c.Field, inner, p, enclIn) {
+				return true
+			}
 			continue
 		}
 		inSlice := append(append([]ast.Node{}, inner...), nil)
